@@ -60,9 +60,9 @@ def run(ctx):
     sc.run_exemplars(ctx, CLAUSES, extra_sig=xsig)
     quick = ctx.tier == "quick"
     flavors = ["oid/oid", "path/oidf"] if quick else ["oid/oid", "path/oidf", "oidf/path", "path/path"]
-    fams = [("m_one2", [1], 2, None, 120 if quick else None), ("m_two2", [1, 2], 2, None, 120 if quick else 4000)]
+    fams = [("m_one2", [1], 2, None, 120 if quick else None), ("m_two2", [1, 2], 2, None, 120 if quick else 1500)]
     if not quick:
-        fams += [("m_oneR2", [2], 2, None, None), ("m_one3", [1], 3, None, 4000)]
+        fams += [("m_oneR2", [2], 2, None, None), ("m_one3", [1], 3, None, 1500)]
     for name, sides, nops, mode, limit in fams:
         # non-conflicting histories only: for conflicting ones the outcome legitimately depends on what the engine saw when
         cases = sc.generate(ctx, name, sides, nops, GAPS, "std", filt="disjoint")
